@@ -138,25 +138,25 @@ pub fn run_history(st: &mut CSt, sp: &Space, index: u64) {
                 let detail = || json!({"group": GROUP_NAMES[g], "entry_in_interval": j, "draw": format!("{k}/2^24"), "group_rate": format!("{rate:e}"),
                     "calls_reaching_inner_format": reached, "rate_passed_on": format!("{:e}", f32::from_bits(rec.last_rate_bits.get()))});
                 if res.is_err() {
-                    st.v.add("congress:error-from-infallible-inner-format", "format returned Err although the inner format cannot fail", replay(&known, detail()));
+                    vadd!(st.v, "congress:error-from-infallible-inner-format", "format returned Err although the inner format cannot fail", replay(&known, detail()));
                 }
                 if reached != expect as u64 {
                     let rel = if rate == 1.0 { "rate==1" } else if k as f64 == rate as f64 * TWO24 { "draw==rate" } else if (k as f64) < rate as f64 * TWO24 { "draw<rate" } else { "draw>rate" };
-                    st.v.add(format!("congress:emit-decision:{rel}"), format!("group rate {rate:e}, draw {k}/2^24 ({rel}): entry reached the inner format {reached} times, expected {}", expect as u64), replay(&known, detail()));
+                    vadd!(st.v, format!("congress:emit-decision:{rel}"), format!("group rate {rate:e}, draw {k}/2^24 ({rel}): entry reached the inner format {reached} times, expected {}", expect as u64), replay(&known, detail()));
                 }
                 if reached > 0 {
                     st.emitted += 1;
                     let got = rec.last_rate_bits.get();
                     if got != rate.to_bits() {
                         let key = if got == RATE_VIA_PLAIN_FORMAT { "congress:rate-passed-on:unsampled-format-used" } else { "congress:rate-passed-on" };
-                        st.v.add(key, format!("the group's rate is {rate:e} but the inner format was handed {:e}", f32::from_bits(got)), replay(&known, detail()));
+                        vadd!(st.v, key, format!("the group's rate is {rate:e} but the inner format was handed {:e}", f32::from_bits(got)), replay(&known, detail()));
                     }
                     if rec.last_id.get() != id {
-                        st.v.add("congress:entry-passed-on", "the inner format saw a different entry than the one formatted", replay(&known, detail()));
+                        vadd!(st.v, "congress:entry-passed-on", "the inner format saw a different entry than the one formatted", replay(&known, detail()));
                     }
                     let r = f32::from_bits(got);
                     if !(r > 0.0 && r <= 1.0) {
-                        st.v.add("congress:rate-out-of-range", format!("rate {r:e} handed to the inner format is outside (0,1]"), replay(&known, detail()));
+                        vadd!(st.v, "congress:rate-out-of-range", format!("rate {r:e} handed to the inner format is outside (0,1]"), replay(&known, detail()));
                     }
                 } else {
                     st.dropped += 1;
@@ -190,7 +190,7 @@ pub fn run_history(st: &mut CSt, sp: &Space, index: u64) {
         // 1. every rate in (0,1]
         for &(g, _avg, rate) in &live {
             if !(rate > 0.0 && rate <= 1.0) {
-                st.v.add("congress:rate-out-of-range", format!("group {} has rate {rate:e} after an interval with {total} entries", GROUP_NAMES[g]), replay(&known, json!(null)));
+                vadd!(st.v, "congress:rate-out-of-range", format!("group {} has rate {rate:e} after an interval with {total} entries", GROUP_NAMES[g]), replay(&known, json!(null)));
             }
             if (rate as f64) < st.min_rate { st.min_rate = rate as f64 }
         }
@@ -199,7 +199,7 @@ pub fn run_history(st: &mut CSt, sp: &Space, index: u64) {
             st.intervals_at_or_below_target += 1;
             for &(g, _avg, rate) in &live {
                 if rate != 1.0 {
-                    st.v.add("congress:not-one-below-target", format!("the interval saw {total} <= {TARGET} entries but group {} has rate {rate:e}", GROUP_NAMES[g]), replay(&known, json!(null)));
+                    vadd!(st.v, "congress:not-one-below-target", format!("the interval saw {total} <= {TARGET} entries but group {} has rate {rate:e}", GROUP_NAMES[g]), replay(&known, json!(null)));
                 }
             }
         } else {
@@ -209,7 +209,7 @@ pub fn run_history(st: &mut CSt, sp: &Space, index: u64) {
             let ratio = budget / TARGET as f64;
             if ratio > st.max_budget_ratio { st.max_budget_ratio = ratio }
             if !(budget <= TARGET as f64 * (1.0 + REL_TOL)) {
-                st.v.add("congress:budget-exceeded", format!("sum(average x rate) = {budget} > target {TARGET} after an interval with {total} entries"), replay(&known, json!({"sum_average_x_rate": budget})));
+                vadd!(st.v, "congress:budget-exceeded", format!("sum(average x rate) = {budget} > target {TARGET} after an interval with {total} entries"), replay(&known, json!({"sum_average_x_rate": budget})));
             }
             // 4. a rarer group is never sampled at a lower rate than a more frequent one
             for &(gi, ai, ri) in &live {
@@ -219,7 +219,7 @@ pub fn run_history(st: &mut CSt, sp: &Space, index: u64) {
                         let inversion = (rj as f64 - ri as f64) / rj as f64;
                         if inversion > st.max_inversion { st.max_inversion = inversion }
                         if !((ri as f64) >= rj as f64 * (1.0 - REL_TOL)) {
-                            st.v.add("congress:rarer-group-sampled-lower", format!("group {} (average {ai}) has rate {ri:e}, the more frequent group {} (average {aj}) has rate {rj:e}", GROUP_NAMES[gi], GROUP_NAMES[gj]), replay(&known, json!(null)));
+                            vadd!(st.v, "congress:rarer-group-sampled-lower", format!("group {} (average {ai}) has rate {ri:e}, the more frequent group {} (average {aj}) has rate {rj:e}", GROUP_NAMES[gi], GROUP_NAMES[gj]), replay(&known, json!(null)));
                         }
                     }
                 }
